@@ -23,6 +23,12 @@ def gen_cases(prop, tier, seed, n_quick, n_thorough, families, history_kind='mix
         cfg = workloads.gen_cfg(rng, pspec, pool=pool, networks=over.pop('networks', None),
                                 n_batch=over.pop('n_batch', None), filepath=over.pop('filepath', None))
         cfg.update(over)
+        if i % 12 == 7 and pool == 'none':
+            # the configuration of tests/test_sampler.py::test_sampler_empty_shells: one update per bound, so some
+            # shells stay empty and are removed at the end of exploration
+            cfg.update(n_update=1, n_live=int(rng.choice([10, 15, 25])), n_batch=int(rng.choice([1, 2])), f_live=1e-3,
+                       n_networks=0, n_eff=int(rng.choice([30, 60])), n_shell=1, n_like_new_bound=None,
+                       n_points_min=None)
         allow_fault = history_kind == 'mixed' and pool in ('none', 's2')
         hist = drive.gen_history(rng, cfg, kind='mixed' if allow_fault else 'plain')
         cases.append({'i': i, 'seed': seed, 'prob': pspec, 'cfg': cfg, 'hist': hist})
